@@ -7,7 +7,9 @@ R2 CACHE-FRESH (typestate): in every public function that produces a Board, afte
    that can change what the caches depend on (placement or side to move), every path to a return
    passes the from-scratch recomputation on that object -- or the function is an inline recomputer,
    for which: checkers/pinned are reset before any other write to them and no placement change is
-   reachable once the slider scan has started.
+   reachable once the slider scan has started.  DEFINITELY-RESET (must-analysis, also on the from-scratch
+   routine): on every path each cache is overwritten by a value that does not read it before it is
+   updated in place and before every return.
 R3 SCAN-CLONES: the slider scans (from-scratch routine and the two move-application tails) have the
    same shape modulo roles: attackers = cc(A) & ((bishop_rays(k) & (B|Q)) | (rook_rays(k) & (R|Q))),
    per attacker `between(a,k) & combined`: empty -> checker, popcount 1 -> pinned; k = king of the
@@ -25,7 +27,7 @@ from . import c08
 LEVEL = 'other'
 EXHAUSTIVE = True
 EXPLANATION = ('Effect inventory (single writer of the placement fields), typestate over the CFG of every Board-producing '
-               'function (caches recomputed after the last dependency change on all paths), sibling comparison of the three '
+               'function (caches recomputed after the last dependency change on all paths; each cache definitely overwritten before it is updated or returned), sibling comparison of the three '
                'slider-scan copies in a canonical BitBoard algebra with role checking against the side to move at return, '
                'path classification of the direct-check terms, predicate abstraction of piece_on over the six piece worlds.')
 NOT_DECIDED = ('"reported checkers are exactly the attacking pieces" and equality with the freshly parsed position are value '
